@@ -387,6 +387,10 @@ pub fn run_lines(lines: &[String], oracles: bool) -> RunResult {
                             Some(h) => {
                                 if !delta.iter().any(|l| *l == format!("c ent h{h}")) {
                                     fail!("C03 entering guest span {g} did not enter its host span h{h}: {}", delta.join(" ; "));
+                                    let enabled = sys.spec.alive.get(g).and_then(|r| sys.spec.known.get(&r.mt)).map_or(false, |site| max_level.map_or(false, |m| site.level <= m));
+                                    if enabled {
+                                        fail!("C13 a span the host enables lost its enter history: entering guest span {g} did not enter host span h{h}");
+                                    }
                                 }
                             }
                             None => fail!("C03 guest span {g} entered but no host span was presented for it"),
@@ -768,6 +772,8 @@ struct Guest {
     sites: BTreeMap<u64, Site>,
     spans: BTreeMap<u64, GSpan>,
     next_span: u64,
+    /// draw most span ids from a tiny pool, so that ids of dead spans are recycled often
+    small_ids: bool,
 }
 
 fn site_values(rng: &mut Rng, site: &Site, max: usize) -> Entries {
@@ -836,7 +842,13 @@ impl Guest {
                 self.next_span += 1;
                 // mostly the next id; sometimes any id that is not alive (smaller than earlier ones,
                 // recycled after its span died, far away): ids are opaque to the receiver
-                let id = if rng.chance(1, 4) {
+                let id = if self.small_ids && rng.chance(2, 3) {
+                    let mut c = rng.range(1, 5) as u64;
+                    while self.spans.contains_key(&c) {
+                        c += 1;
+                    }
+                    c
+                } else if rng.chance(1, 4) {
                     let mut c = match rng.below(3) { 0 => rng.range(1, 12) as u64, 1 => 1000 - self.next_span, _ => self.next_span + 50 };
                     while self.spans.contains_key(&c) {
                         c += 1;
@@ -1010,6 +1022,7 @@ impl Suite for Receiver {
         let mut snap = g.clone();
         let (mut cold_n, mut cold_line) = (0usize, String::new());
         if focus == "C13" {
+            g.small_ids = true;
             // a host with a level filter; well-formed streams across kept / lost local maps
             lines.push(format!("host filter {}", rng.below(5)));
         }
